@@ -161,7 +161,9 @@ def audit_axioms(module: str, theorems: t.List[str]) -> t.Tuple[t.Dict[str, t.Li
 def prove(ctx: Ctx, modules: t.List[str], gen_needed: t.List[str], theorems: t.List[str], sources: t.List[str]) -> None:
     """translate, rebuild, audit; records broken obligations in ctx.broken; fills ctx.cov proof keys"""
     with lean_lock():
-        status = translate()
+        # regenerate only what this property depends on (other properties' Gen modules are left alone, so that
+        # checks pointed at different trees do not invalidate each other's compiled modules)
+        status = translate(gen_needed or None)
         for g in gen_needed:
             st = status.get(g)
             if not st or not st["ok"]:
